@@ -1460,6 +1460,9 @@ class TTNS(TTNBase):
             order = self.basis.basis_list
         indices_up = []
         for basis in order:
+            # the size-1 leg of a dummy basis is squeezed away in `to_contract_args` (same as `TTNO.todense`)
+            if isinstance(basis, BasisDummy):
+                continue
             indices_up.append(("down", str(basis.dofs)))
         output_indices = indices_up
         args.append(output_indices)
